@@ -226,6 +226,29 @@ def _motion(ctx, prog):
     ACCF = "evo.core.geometry.accumulated_distances"
     blk = T("tuple", T("slice", tm.NONE, const(3), tm.NONE),
             T("slice", tm.NONE, const(3), tm.NONE))
+    # thresholds >= 0 are in the property's range, 0 included ("keeps a
+    # later pose if ... reached the threshold" — every pose for 0): an input
+    # guard may refuse negative values only
+    r0 = Interp(prog).run(f, {"degrees": const(False)})
+    for e in r0.of_kind("raise"):
+        for a in tm.atoms(e.live):
+            n_ = norm_cmp(a)
+            if n_ is None:
+                continue
+            l_, rel, r_ = n_
+            for thr in (thr_d, thr_a_raw):
+                refuses_zero = (l_ is thr and rel == "LtE" and
+                                tm.is_const(r_) and tm.const_val(r_) == 0) or \
+                    (r_ is thr and rel == "Lt" and tm.is_const(l_) and
+                     tm.const_val(l_) > 0)
+                if (l_ is thr or r_ is thr):
+                    ctx.ob("C11.2", e, not refuses_zero,
+                           f"motion filter: only a negative "
+                           f"{thr.args[0]} is refused" if not refuses_zero
+                           else f"motion filter: {thr.args[0]} = 0 is "
+                                f"refused ({fmt(a)}), although thresholds "
+                                f">= 0 incl. 0 are valid",
+                           key=f"C11.2:guard:{thr.args[0]}")
     for deg in (False, True):
         r = Interp(prog).run(f, {"degrees": const(deg)})
         ctx.analysed["configs"] += 1
